@@ -35,7 +35,7 @@ RULE = (
     "conflict / an excluded or unselected source item / >=2 jobs to synchronise in parallel exists; distinct by case hash."
 )
 CLASSES = [
-    "dry_into_remains_of_interrupted_job", "dry_bulk_stale_cache", "parallel_overlapping_jobs", "deep_sizes_differ", "dry_symlink_in_destination", "dry_clone", "dry_copy_file", "dry_copytree", "dry_doc_flat", "dry_doc_nested", "dry_conflict", "dry_job_level",
+    "dry_into_remains_of_interrupted_job", "dry_bulk_stale_cache", "deep_repeated_same_stat", "parallel_overlapping_jobs", "deep_sizes_differ", "dry_symlink_in_destination", "dry_clone", "dry_copy_file", "dry_copytree", "dry_doc_flat", "dry_doc_nested", "dry_conflict", "dry_job_level",
     "dry_new_job_job_level", "deep_job", "deep_project", "exclude_in_clone", "exclude_in_merge", "exclude_in_copytree",
     "selection_ids", "selection_jobs", "parallel_2", "parallel_true", "dry_mixed_type_typeerror",
 ]
@@ -188,9 +188,82 @@ def _run_parallel_overlap(case, ctx):
         shutil.rmtree(base, ignore_errors=True)
 
 
+def _run_deep_repeat(case, ctx):
+    """deep=True compares CONTENT, also the second time round in one process: between two deep syncs of the same
+    pair the destination file is replaced by one of the same size and mtime (the standard library's comparison
+    cache is keyed by exactly that signature)."""
+    import os
+
+    import signac
+    from signac import sync
+    from signac.errors import FileSyncConflict
+
+    base = ctx.tmpdir("c15r")
+    mms = []
+    try:
+        src = signac.init_project(os.path.join(base, "src"))
+        dst = signac.init_project(os.path.join(base, "dst"))
+        spt = {"a": 0}
+        js, jd = src.open_job(spt).init(), dst.open_job(spt).init()
+        name = "sub/h.txt" if case.get("nested") else "f.txt"
+        first_equal = case.get("first", "equal") == "equal"
+
+        def put(job, data):
+            fsutil.write_file(job.fn(name), data)
+            os.utime(job.fn(name), (1000000, 1000000))
+
+        put(js, b"aaaa")
+        put(jd, b"aaaa" if first_equal else b"bbbb")
+        entry = case.get("entry", "Project.sync")
+
+        def call(strategy):
+            s2, d2 = signac.Project(src.path), signac.Project(dst.path)
+            kw = dict(strategy=strategy, deep=True, recursive=True)
+            if entry == "Project.sync":
+                d2.sync(s2, check_schema=False, **kw)
+            elif entry == "sync_projects":
+                sync.sync_projects(s2, d2, check_schema=False, **kw)
+            elif entry == "Job.sync":
+                d2.open_job(spt).sync(s2.open_job(spt), **kw)
+            else:
+                sync.sync_jobs(s2.open_job(spt), d2.open_job(spt), **kw)
+
+        desc = f"entry={entry} file={name!r} first sync saw {'identical' if first_equal else 'differing'} content"
+        try:
+            call(None if first_equal else sync.FileSync.never)
+        except Exception as e:
+            mms.append(Mismatch("deep_repeat_first", f"first deep sync raised {type(e).__name__}: {e} ({desc})"))
+            return {"mismatches": mms, "classes": ["deep_repeated_same_stat"], "nontrivial": True}
+        # same size, same mtime, other bytes
+        put(jd, b"bbbb" if first_equal else b"aaaa")
+        second = case.get("second")
+        try:
+            call({"always": sync.FileSync.always, None: None}[second])
+            outcome = "returns"
+        except FileSyncConflict:
+            outcome = "FileSyncConflict"
+        except Exception as e:
+            outcome = f"{type(e).__name__}: {e}"
+        with open(jd.fn(name), "rb") as f:
+            now = f.read()
+        if first_equal:
+            if second is None and outcome != "FileSyncConflict":
+                mms.append(Mismatch("deep_conflict_missed", f"second deep=True sync, destination file replaced by other bytes of the same size and mtime, no strategy: FileSyncConflict expected, got {outcome} ({desc})"))
+            if second == "always" and (outcome != "returns" or now != b"aaaa"):
+                mms.append(Mismatch("deep_not_overwritten", f"second deep=True sync with FileSync.always after the destination file was replaced by other bytes of the same size and mtime: outcome {outcome}, destination holds {now!r} ({desc})"))
+        else:
+            if outcome != "returns" or now != b"aaaa":
+                mms.append(Mismatch("deep_spurious_conflict", f"second deep=True sync after the destination file was made byte-identical to the source (same size and mtime as before): outcome {outcome}, destination holds {now!r} ({desc})"))
+        return {"mismatches": mms, "classes": ["deep_repeated_same_stat"], "nontrivial": True}
+    finally:
+        shutil.rmtree(base, ignore_errors=True)
+
+
 def run_case(case, ctx):
     if case.get("special") == "parallel_overlap":
         return _run_parallel_overlap(case, ctx)
+    if case.get("special") == "deep_repeat":
+        return _run_deep_repeat(case, ctx)
     if case.get("special"):
         return _run_special(case, ctx)
     plan = sp.analyse(case)
@@ -465,6 +538,10 @@ SPECIAL = [
     {"special": "symlink", "entry": "Project.sync", "strategy": "always", "parallel": 2},
     {"special": "parallel_overlap", "exclude": ["nothing_matches_this"]},
     {"special": "parallel_overlap", "exclude": "z.*"},
+] + [
+    {"special": "deep_repeat", "entry": _e, "first": _fi, "second": _se, "nested": _n}
+    for _e in ("Project.sync", "sync_projects", "Job.sync", "sync_jobs") for _fi, _se in (("equal", None), ("equal", "always"), ("differ", None)) for _n in (False, True)
+] + [
     {"special": "bulk", "entry": "sync_projects", "n": 513, "cached": 3},
     {"special": "bulk", "entry": "Project.sync", "n": 520, "cached": 10, "dst_cache": False},
     {"special": "bulk", "entry": "sync_projects", "n": 700, "cached": 150, "src_cache": False},
@@ -475,7 +552,7 @@ def run(ctx):
     if ctx.worker == 0:
         for c in CONSTRUCTED:
             ctx.apply(c)
-    for i, c in enumerate(SPECIAL if ctx.tier != "quick" else SPECIAL[:9]):
+    for i, c in enumerate(SPECIAL if ctx.tier != "quick" else SPECIAL[:-2]):
         if i % ctx.nworkers == ctx.worker:
             ctx.apply(c)
     drive(ctx, sp.pair_cases("c15"), 750 if ctx.tier == "quick" else 9000, ctx.apply)
